@@ -1216,3 +1216,236 @@ Proof.
       * apply Inc. right; exact Ix.
       * intros ->. contradiction.
 Qed.
+
+(* ================================================================= *)
+(* BeginBlock, part 2: the tally                                      *)
+(* ================================================================= *)
+
+Definition tally_state (s : ent_state) (id : Z) (o : po) (st now : Z) : ent_state :=
+  with_pos s (aset id (set_po_status o st now true) (e_pos s)) (remove_z id (e_raisedq s))
+           (if st =? ST_ACCEPTED then e_acceptedq s ++ [id] else e_acceptedq s).
+
+Lemma tally_one_cases p now o st :
+  tally_one p now o = Some st -> st = ST_ACCEPTED \/ st = ST_REJECTED.
+Proof.
+  unfold tally_one. cbv zeta.
+  destruct (_ && _); [intros [= <-]; auto|].
+  destruct (_ <? _); [intros [= <-]; auto|].
+  destruct (_ <=? _); [intros [= <-]; auto|discriminate].
+Qed.
+
+Lemma sinv_tally_state now s id o st :
+  sinv now s -> aget id (e_pos s) = Some o -> po_status o = ST_RAISED ->
+  st = ST_ACCEPTED \/ st = ST_REJECTED ->
+  sinv now (tally_state s id o st now).
+Proof.
+  intros I G St Hst.
+  pose proof (si_po _ _ I _ _ G) as K.
+  assert (So : status_of s id = ST_RAISED) by (unfold status_of; rewrite G; exact St).
+  assert (Dn : dn (tally_state s id o st now) = dn s) by reflexivity.
+  assert (SS : forall id', status_of (tally_state s id o st now) id'
+                           = if id' =? id then st else status_of s id').
+  { intros id'. erewrite status_of_aset by reflexivity. reflexivity. }
+  assert (NIa : ~ In id (e_acceptedq s)).
+  { rewrite (si_aq _ _ I), So. stu. discriminate. }
+  destruct I. constructor; rewrite ?Dn; try (unfold tally_state; sproj; auto; fail).
+  - unfold tally_state; sproj. apply NoDup_akeys_aset; auto.
+  - unfold tally_state; sproj. apply NoDup_remove_z; auto.
+  - unfold tally_state; sproj. destruct (st =? ST_ACCEPTED); auto. apply NoDup_snoc; auto.
+  - unfold tally_state; sproj. intros id' o'. rewrite aget_aset_Z.
+    destruct (Z.eqb_spec id' id) as [->|N].
+    + intros [= <-]. apply set_status_ok; auto. unfold st_valid; tauto.
+    + apply si_po0.
+  - intros id'. rewrite SS. unfold tally_state; sproj. rewrite In_remove_z.
+    destruct (Z.eqb_spec id' id) as [->|N].
+    + split; [tauto|]. stu. destruct Hst; subst; discriminate.
+    + rewrite si_rq0. tauto.
+  - intros id'. rewrite SS. unfold tally_state; sproj.
+    destruct (Z.eqb_spec id' id) as [->|N].
+    + destruct Hst as [-> | ->].
+      * change (ST_ACCEPTED =? ST_ACCEPTED) with true. cbv iota. rewrite in_app_iff. cbn. tauto.
+      * change (ST_REJECTED =? ST_ACCEPTED) with false. cbv iota. split; [tauto|]. stu. discriminate.
+    + rewrite <- si_aq0. destruct (st =? ST_ACCEPTED); [|tauto].
+      rewrite in_app_iff. cbn. split; [intros [X|[X|[]]]; [exact X|congruence]|tauto].
+  - intros a'. erewrite completed_sum_aset by reflexivity. rewrite G.
+    change (amount_coin (tally_state s id o st now) a') with (amount_coin s a').
+    unfold tally_state; sproj. rewrite <- si_acct0.
+    unfold csum_f; cbn [set_po_status po_status po_purchaser po_amount]. rewrite St.
+    change (ST_RAISED =? ST_COMPLETED) with false.
+    replace (st =? ST_COMPLETED) with false by (stu; destruct Hst; subst; reflexivity).
+    cbn [andb]. lia.
+Qed.
+
+Inductive tallies (now : Z) : list Z -> ent_state -> ent_state -> Prop :=
+| tl_nil s : sinv now s -> tallies now [] s s
+| tl_skip id o rest s s' :
+    sinv now s -> aget id (e_pos s) = Some o -> po_status o = ST_RAISED ->
+    tally_one (e_params s) now o = None ->
+    tallies now rest s s' -> tallies now (id :: rest) s s'
+| tl_set id o st rest s s' :
+    sinv now s -> aget id (e_pos s) = Some o -> po_status o = ST_RAISED ->
+    tally_one (e_params s) now o = Some st ->
+    tallies now rest (tally_state s id o st now) s' -> tallies now (id :: rest) s s'.
+
+Lemma tally_tallies now ids : forall s s',
+  sinv now s -> tally ids now s = Ok s' -> tallies now ids s s'.
+Proof.
+  induction ids as [|id rest IH]; intros s s' I H.
+  - cbn in H. injection H as <-. constructor; auto.
+  - cbn [tally] in H.
+    destruct (aget id (e_pos s)) as [o|] eqn:G; [|discriminate].
+    destruct (po_status o =? ST_RAISED) eqn:St; cbn [negb] in H; [|discriminate].
+    assert (po_status o = ST_RAISED) as St' by lia.
+    destruct (tally_one (e_params s) now o) as [st|] eqn:T.
+    + eapply tl_set; eauto. apply IH; auto.
+      apply sinv_tally_state; auto. eapply tally_one_cases; eauto.
+    + eapply tl_skip; eauto.
+Qed.
+
+Lemma tally_ok now ids : forall s,
+  sinv now s -> (forall x, In x ids -> In x (e_raisedq s)) -> NoDup ids ->
+  exists s', tally ids now s = Ok s'.
+Proof.
+  induction ids as [|id rest IH]; intros s I Inc ND.
+  - cbn. eauto.
+  - cbn [tally].
+    assert (In id (e_raisedq s)) as Ir by (apply Inc; left; reflexivity).
+    apply (si_rq _ _ I) in Ir. apply status_raised_Some in Ir as (o & G & St).
+    rewrite G. destruct (po_status o =? ST_RAISED) eqn:St'; [|lia]. cbn [negb].
+    inversion ND as [|? ? NI ND']; subst.
+    destruct (tally_one (e_params s) now o) as [st|] eqn:T.
+    + apply IH; auto.
+      * apply sinv_tally_state; auto. eapply tally_one_cases; eauto.
+      * intros x Ix. cbn [tally_state with_pos e_raisedq]. rewrite In_remove_z. split.
+        -- apply Inc. right; exact Ix.
+        -- intros ->. contradiction.
+    + apply IH; auto. intros x Ix. apply Inc. right; exact Ix.
+Qed.
+
+Lemma tallies_end now ids s s' : tallies now ids s s' -> sinv now s'.
+Proof. induction 1; auto. Qed.
+
+Lemma tallies_frame now ids s s' :
+  tallies now ids s s' ->
+  e_params s' = e_params s /\ e_next s' = e_next s /\ e_wl s' = e_wl s /\
+  e_locked s' = e_locked s /\ e_spent s' = e_spent s /\
+  e_totlocked s' = e_totlocked s /\ e_totspent s' = e_totspent s.
+Proof.
+  induction 1 as [| |id o st rest s s' I G St T C IH]; [repeat split|assumption|].
+  destruct IH as (A1 & A2 & A3 & A4 & A5 & A6 & A7). cbn in *. repeat split; auto.
+Qed.
+
+(* each order is either untouched or was raised and got the tally's verdict *)
+Lemma tallies_pos now ids s s' :
+  tallies now ids s s' ->
+  forall x, aget x (e_pos s') = aget x (e_pos s) \/
+            (In x ids /\
+             exists o st, aget x (e_pos s) = Some o /\ po_status o = ST_RAISED /\
+                          tally_one (e_params s) now o = Some st /\
+                          aget x (e_pos s') = Some (set_po_status o st now true)).
+Proof.
+  induction 1 as [s I|id o rest s s' I G St T C IH|id o st rest s s' I G St T C IH]; intros x.
+  - left; reflexivity.
+  - destruct (IH x) as [E|(Ix & o' & st' & A)]; [left; exact E|].
+    right. split; [right; exact Ix|]. eauto.
+  - destruct (IH x) as [E|(Ix & o' & st' & G' & St' & T' & E)].
+    + cbn [tally_state with_pos e_pos] in E. rewrite aget_aset_Z in E.
+      destruct (Z.eqb_spec x id) as [Ex|N]; [|left; exact E].
+      subst x. right. split; [left; reflexivity|]. exists o, st. auto.
+    + cbn [tally_state with_pos e_pos e_params] in G', T'. rewrite aget_aset_Z in G'.
+      destruct (Z.eqb_spec x id) as [Ex|N].
+      * exfalso. injection G' as <-. cbn in St'. apply tally_one_cases in T. stu.
+        destruct T; subst; discriminate.
+      * right. split; [right; exact Ix|]. exists o', st'. auto.
+Qed.
+
+(* ================================================================= *)
+(* BeginBlock as a whole                                              *)
+(* ================================================================= *)
+
+Lemma ent_inv_binv w : ent_inv w -> binv (w_bank w) (w_ent w).
+Proof. intros [_ _ A B]. split; assumption. Qed.
+
+Lemma begin_block_decompose w now b' s' :
+  ent_inv w -> w_now w <= now ->
+  ent_begin_block now (w_bank w) (w_ent w) = Ok (b', s') ->
+  exists s1, completes now (e_acceptedq (w_ent w)) (w_bank w) (w_ent w) b' s1 /\
+             tallies now (e_raisedq s1) s1 s'.
+Proof.
+  intros I Hn H. unfold ent_begin_block in H.
+  destruct (process_accepted (e_acceptedq (w_ent w)) (w_bank w) (w_ent w)) as [[b1 s1]| |] eqn:P;
+    cbn [obind] in H; try discriminate.
+  destruct (tally (e_raisedq s1) now s1) as [s2| |] eqn:T; cbn [obind] in H; try discriminate.
+  injection H as <- <-.
+  assert (C : completes now (e_acceptedq (w_ent w)) (w_bank w) (w_ent w) b1 s1).
+  { apply process_accepted_completes; auto.
+    - eapply sinv_mono; [exact Hn|]. apply inv_s; exact I.
+    - apply ent_inv_binv; exact I. }
+  exists s1. split; [exact C|].
+  apply tally_tallies; auto. apply (completes_end _ _ _ _ _ _ C).
+Qed.
+
+Lemma ent_inv_begin w now w' :
+  ent_inv w -> ent_op_wf w (OBegin now) -> ent_step w (OBegin now) = Some w' -> ent_inv w'.
+Proof.
+  intros I [Hn1 Hn2] H. cbn [ent_step] in H.
+  destruct (ent_begin_block now (w_bank w) (w_ent w)) as [[b' s']| |] eqn:E; try discriminate.
+  injection H as <-.
+  destruct (begin_block_decompose _ _ _ _ I Hn1 E) as (s1 & C & T).
+  pose proof (completes_end _ _ _ _ _ _ C) as [I1 [B1 B2]].
+  pose proof (tallies_frame _ _ _ _ T) as (Ep & _ & _ & _ & _ & Etl & _).
+  constructor; sproj.
+  - eapply tallies_end; eauto.
+  - pose proof (inv_now _ I). lia.
+  - unfold dn. rewrite Ep, (total_locked_frame _ _ Ep Etl). exact B1.
+  - unfold dn. rewrite Ep. exact B2.
+Qed.
+
+Theorem ent_inv_step w o w' :
+  ent_inv w -> ent_op_wf w o -> ent_step w o = Some w' -> ent_inv w'.
+Proof.
+  intros I W H. destruct o.
+  - eapply ent_inv_msg; eauto.
+  - eapply ent_inv_begin; eauto.
+  - eapply ent_inv_set_params; eauto.
+  - eapply ent_inv_unlock; eauto.
+Qed.
+
+Theorem ent_inv_run h : forall w w',
+  ent_inv w -> ent_hist_wf w h -> ent_run w h = Some w' -> ent_inv w'.
+Proof.
+  induction h as [|o r IH]; intros w w' I W H.
+  - cbn in H. injection H as <-. exact I.
+  - cbn [ent_run ent_hist_wf] in *. destruct W as [Wo Wr].
+    destruct (ent_step w o) as [w1|] eqn:E; [|discriminate].
+    apply (IH w1 w'); auto. eapply ent_inv_step; eauto.
+Qed.
+
+(* bank non-negativity is a second, independent invariant of the steps *)
+Lemma completes_nonneg now ids b s b' s' :
+  completes now ids b s b' s' -> bank_nonneg b -> bank_nonneg b'.
+Proof.
+  induction 1 as [|id o rest b s b1 b' s' I B G St Mi C IH]; auto.
+  intros N. apply IH. eapply minted_nonneg; eauto.
+  pose proof (pk_amt _ _ _ _ _ (si_po _ _ I _ _ G)). lia.
+Qed.
+
+Lemma ent_step_bank_nonneg w o w' :
+  ent_inv w -> ent_op_wf w o -> ent_step w o = Some w' ->
+  bank_nonneg (w_bank w) -> bank_nonneg (w_bank w').
+Proof.
+  intros I W H N. destruct o as [m|now|p|payer fee]; cbn [ent_step] in H.
+  - destruct (ent_validate_basic m); [|injection H as <-; exact N..].
+    destruct (ent_exec _ _ _) as [[s' r]| |]; injection H as <-; exact N.
+  - destruct (ent_begin_block now (w_bank w) (w_ent w)) as [[b' s']| |] eqn:E; try discriminate.
+    injection H as <-. destruct W as [Hn _].
+    destruct (begin_block_decompose _ _ _ _ I Hn E) as (s1 & C & _).
+    eapply completes_nonneg; eauto.
+  - destruct (ent_set_params _ _); injection H as <-; exact N.
+  - destruct W as (Hp & P & ND).
+    destruct (unlock_for_fees (w_bank w) (w_ent w) payer fee) as [[b' s']| |] eqn:E;
+      injection H as <-; try exact N.
+    eapply unlock_ok_inv in E; eauto using inv_s, inv_escrow0.
+    destruct E as (_ & [(_ & _ & S & _)|[(_ & S & _)|(_ & _ & -> & _)]]); cbn [w_bank]; auto;
+      eapply bank_send_nonneg; eauto.
+Qed.
